@@ -57,6 +57,7 @@ func runC05(c *core.Ctx) {
 	c05R2(c)
 	c14R5(c, "C05.R3")
 	c05R4(c)
+	c04Range(c, "C05.R7")
 	c05R5(c)
 	// R6: interface contract, shared with C13.R3
 	c13R3as(c, "C05.R6")
@@ -191,6 +192,22 @@ func c05R2(c *core.Ctx) {
 		}
 		ok, w := eng.MustFollow(cb, own, func(i ssa.Instruction) bool { return i == ssa.Instruction(call) })
 		c.Check(ok, rule, cbName+":"+sd.field+" whenever the transition happens", call.Pos(), "every first/last transition of an active peer reaches the trie callback", fmt.Sprintf("a counter transition of an active peer does not reach %s: %v", sd.field, w))
+		// the counter moves for every replicated transition, whether or not the peer is active at
+		// that moment: state.Merge has consumed the entry, it will not come again. Every path on
+		// which the event is not ours and v.IsAdded()/IsRemoved() holds calls onSubscribe/
+		// onUnsubscribe (a `peer.IsActive() && peer.onSubscribe(..)` short-circuit skips it).
+		var cntCall ssa.Instruction
+		eng.Instrs(cb, func(in ssa.Instruction) {
+			if eng.IsCallTo(in, sd.cnt) {
+				cntCall = in
+			}
+		})
+		if cntCall != nil {
+			okC, wC := eng.MustFollow(cb, own[:2], func(i ssa.Instruction) bool { return i == cntCall })
+			actP := eng.CallPred("peer.IsActive()", idPeerIsActive, -1, true, nil)
+			gA := eng.Guarded(cntCall, actP)
+			c.Check(okC && !(gA.Guarded && gA.Edges > 0), rule, cbName+":"+shortT(sd.cnt)+" for every replicated transition", cntCall.Pos(), "the per-peer counter is updated for every event of the delta, independent of the peer's activity", fmt.Sprintf("the per-peer counter update %s is skipped on some path although the delta carries the transition (e.g. it sits behind peer.IsActive()): the merge consumed the entry, the counter stays off by one and the last unsubscribe never reaches the trie: %v", shortT(sd.cnt), wC))
+		}
 		// the peer handed to the callback is the one found for the event's peer name
 		c.Check(call.Call.Args[1] == ev, rule, cbName+":"+sd.field+" passes the event", call.Pos(), "the callback receives the decoded event", "the callback does not receive the event being processed")
 		_ = peerArg
